@@ -150,7 +150,14 @@ type mode struct {
 	full bool
 	// sum: containers combine part encodings one at a time instead of as a product
 	sum bool
+	// canon: only the first (shortest/canonical) encoding of the value
+	canon bool
 }
+
+type firstOnly struct{ set encSet }
+
+func (f firstOnly) Count() int   { return 1 }
+func (f firstOnly) At(i int) enc { return f.set.At(0) }
 
 func combine(m mode, kids []encSet, wraps []wrapFn) encSet {
 	if m.sum {
